@@ -337,7 +337,8 @@ def planted_cases():
     for path, k in sites(base):
         attrs = ["definition", "reference"] if k == "sec" else ["dtype", "unit", "uncertainty", "definition",
                                                                  "reference", "value_origin", "values-new",
-                                                                 "values-unconvertible", "values-convertible"]
+                                                                 "values-unconvertible", "values-convertible",
+                                                                 "values-late-unconvertible"]
         for attr in attrs:
             for how in ("conflict", "near", "src-unset", "dest-unset", "equal", "dest-falsy", "src-falsy"):
                 if attr.startswith("values") and how != "conflict":
@@ -363,6 +364,10 @@ def planted_cases():
                     if dn["dtype"] not in ("int", "float"):
                         continue
                     sn["dtype"], sn["values"] = "string", ["not-a-number"]
+                elif attr == "values-late-unconvertible":
+                    if dn["dtype"] not in ("int", "float"):
+                        continue
+                    sn["dtype"], sn["values"] = "string", ["41", "42", "not-a-number"]
                 elif attr == "values-convertible":
                     if dn["dtype"] not in ("int", "float"):
                         continue
@@ -429,7 +434,7 @@ def random_pair(rng):
                     n["dtype"] = rng.choice(["int", "float", "string"])
                     n["values"] = gen._good_value(n["dtype"])
                 if rng.random() < 0.05 and side == "src":
-                    n["dtype"], n["values"] = "string", [rng.choice(["12", "x", "1.5"])]
+                    n["dtype"], n["values"] = "string", rng.choice([["12"], ["x"], ["1.5"], ["7", "x"], ["3", "4", "y"]])
             else:
                 for a in ("definition", "reference"):
                     q = rng.random()
